@@ -62,7 +62,7 @@ def parse_smtlib(text: str):  # noqa: C901
                 char = text[pos]
                 pos += 1
                 comment.append(char)
-                if char == '\n':
+                if char in ('\n', '\r'):
                     break
             comment = ''.join(comment)
             if cur_expr is not None:
